@@ -23,6 +23,10 @@ Definition dec (v : N) : N * N * bool :=
    N.land (N.lxor ((v + 1) mod W64) mask16) mask16,
    N.land v outbit =? 0).
 
+(** _isout, _lpath: the two accessors without a caller (same expressions as in decodeValues) *)
+Definition isout (v : N) : bool := N.land v outbit =? 0.
+Definition lpath (v : N) : N := N.land (N.lxor ((v + 1) mod W64) mask16) mask16.
+
 Definition incpath (v : N) : N := if v =? 0 then W64 - 1 else v - 1.      (* value - 1 on uint64 *)
 Definition incscore (v : N) : N := (v + 65536) mod W64.                   (* value + 1<<16 *)
 Definition setout (v : N) : N := N.land v (W64 - 1 - outbit).             (* value & ^(1<<32) *)
@@ -326,7 +330,12 @@ Definition fast_lcs_egf_sl (a b : list N) (m : Z) (init : list N) : Z * Z :=
 Inductive ccase :=
 | CL (a b : list N) (m : Z) (egf : bool) (init : list N) (s l e : Z)   (* e is ignored when egf = false *)
 | CD (a b : list N) (d pos : Z) (a1 a2 : N)
-| CR (a b : list N) (egf : bool) (rs rl : Z).                          (* reference pair computed by the Python oracle *)
+| CR (a b : list N) (egf : bool) (rs rl : Z)                           (* reference pair computed by the Python oracle *)
+| CW (w s l : N) (o io : bool) (lp : N).                               (* decodeValues(w) = (s,l,o), _isout(w) = io, _lpath(w) = lp *)
+
+Definition word_ok (w s l : N) (o io : bool) (lp : N) : bool :=
+  let '(s', l', o') := dec w in
+  (s' =? s) && (l' =? l) && Bool.eqb o' o && Bool.eqb (isout w) io && (lpath w =? lp).
 
 Definition ref_ok (a b : list N) (egf : bool) (rs rl : Z) : bool :=
   let r := if egf then lcs_ref_egf a b else lcs_ref a b in
@@ -341,6 +350,7 @@ Definition case_ok (c : ccase) : bool :=
     let '(d', pos', a1', a2') := d1or0 a b in
     (d' =? d)%Z && (pos' =? pos)%Z && (a1' =? a1) && (a2' =? a2)
   | CR a b egf rs rl => ref_ok a b egf rs rl
+  | CW w s l o io lp => word_ok w s l o io lp
   end.
 
 Fixpoint mismatches_from (i : nat) (l : list ccase) : list nat :=
